@@ -18,7 +18,8 @@ func init() {
 		Explanation: "C10.a DOM: FullSink.Close can return nil only through (i) the edge phase == done, (ii) the equal edge of an unconditional comparison of the received database's CRC with the header's, and (iii) for every WAL of a range loop over all received WAL files, the equal edge of the comparison of that WAL's CRC with its header's — no other condition (such as 'header value is zero') may bypass a comparison; a WAL's sidecar is written only after its own comparison. Sink.Close publishes only after the inner sink closed without error (C09.c). " +
 			"C10.b DOM: snapshot.Restore returns success only through the equal edges of the database comparison and of every WAL comparison, and replays WALs only after the loop that verified all of them. " +
 			"C10.c TABLE: every length-prefix encode/decode in package snapshot uses binary.BigEndian with a HeaderSizeLen-sized prefix (streamer, path streamer, sink header parsing, Restore agree). " +
-			"C10.d TABLE: NodeTransport.InstallSnapshot wraps the stream in the compressor exactly on the compressSnap edge and Consumer unwraps exactly on the same flag.",
+			"C10.d TABLE: NodeTransport.InstallSnapshot wraps the stream in the compressor exactly on the compressSnap edge and Consumer unwraps exactly on the same flag. " +
+			"C10.e ERR: in the snapshot sinks (Sink, FullSink and siblings) and Restore, no error result of a call that moves or persists snapshot bytes (Write, WriteTo, ReadFrom, Sync, Copy, Rename, WriteFile, writeMeta, sidecar, Open/Close of the inner sink) is dropped.",
 		NotCovered: []string{"that CRC32 detects a particular mutation", "byte identity of the installed files (values)"},
 		Run:        runC10,
 	})
@@ -54,7 +55,8 @@ func eqEdges(fn *ssa.Function, x, y func(ssa.Value) bool) map[an.Edge]bool {
 }
 
 func runC10(c *core.Ctx) {
-	hdrCRC := func(v ssa.Value) bool { return an.MentionsField(v, "Header", "Crc32") }
+	c10Errors(c)
+	hdrCRC :=func(v ssa.Value) bool { return an.MentionsField(v, "Header", "Crc32") }
 	if fn := c.Fn("C10.a", "snapshot", "(*FullSink).Close"); fn != nil {
 		succ := map[ssa.Instruction]bool{}
 		for _, r := range an.SuccessReturns(fn) {
@@ -66,6 +68,19 @@ func runC10(c *core.Ctx) {
 		// the "done" edge of `phase != done` is the equal edge; both tests in Close compare with the same constant
 		h := an.Ungated(an.CutSpec{Fn: fn, GateEdge: phaseDone, Sink: isSucc})
 		c.Result(len(phaseDone) > 0 && len(h) == 0, "C10.a", "DOM", "FullSink.Close:complete", c.P.Pos(fn.Pos()), "success only when every announced byte of every artifact was received (phase done)", "FullSink.Close can succeed although the stream ended early", nil)
+		// the checksum comparisons may live in a helper whose result Close returns (`return s.verify()`):
+		// the remaining obligations are then about that helper's success returns
+		isDBCRC := func(v ssa.Value) bool { return an.LoadedField(v, "FullSink", "dbCRC") }
+		if len(eqEdges(fn, isDBCRC, hdrCRC)) == 0 {
+			if g := tailDelegate(fn); g != nil && len(eqEdges(g, isDBCRC, hdrCRC)) > 0 {
+				c.Touch(g)
+				fn = g
+				succ = map[ssa.Instruction]bool{}
+				for _, r := range an.SuccessReturns(fn) {
+					succ[r] = true
+				}
+			}
+		}
 		// (ii) db CRC
 		dbEq := eqEdges(fn, func(v ssa.Value) bool { return an.LoadedField(v, "FullSink", "dbCRC") }, hdrCRC)
 		h = an.Ungated(an.CutSpec{Fn: fn, GateEdge: dbEq, Sink: isSucc})
